@@ -276,12 +276,12 @@ fn rand_bdd_cfg(rng: &mut Rng, n: usize) -> HistCfg {
     }
 }
 
-fn elim_order(cnf: &Cnf, nvars: usize, has_empty_clause: bool, rng: &mut Rng) -> (&'static str, VarOrder) {
+fn elim_order(cnf: &Cnf, nvars: usize, _has_empty_clause: bool, rng: &mut Rng) -> (&'static str, VarOrder) {
     match rng.below(4) {
         0 => ("linear", VarOrder::linear_order(nvars)),
         1 => ("min_fill", cnf.min_fill_order()),
-        // FORCE on an empty clause is outside C14's domain (S9)
-        2 if !has_empty_clause => ("force", cnf.force_order()),
+        // (FORCE on a CNF with an empty clause panicked before fix 5c0a54e, finding F13)
+        2 => ("force", cnf.force_order()),
         _ => {
             let p: Vec<VarLabel> = rng.perm(nvars).into_iter().map(|x| VarLabel::new(x as u64)).collect();
             ("random", VarOrder::new(&p))
